@@ -71,7 +71,9 @@ def build_script(case):
     order = [ta_line, sa_line] if case.get("ta_first") else [sa_line, ta_line]
     guards = [g for g in order if g]
     trigs = []
-    if "state" in kinds:
+    if "held" in kinds:
+        trigs.append(f'@state_trigger("pyscript.x", state_hold={case["state_hold"] / TICK!r})')
+    elif "state" in kinds:
         trigs.append('@state_trigger("pyscript.x")')
     if "event" in kinds:
         trigs.append('@event_trigger("pv_go")')
@@ -157,7 +159,8 @@ async def scenario(case):
                     j += 1
                 group = ops[i:j]
                 op0 = group[0]
-                await goto(op0["t"] + (128 if op0["k"] == "time" else 0), force=op0["k"] != "time")
+                late = op0["k"] in ("time", "held")      # fired by a timer of pyscript: go slightly past it
+                await goto(op0["t"] + (128 if late else 0), force=not late)
                 expect = []
                 for op in group:
                     k = op["k"]
@@ -173,6 +176,11 @@ async def scenario(case):
                     elif k == "sety":
                         hass.states.async_set("pyscript.y", str(op["v"]))
                         continue
+                    elif k == "xset":          # the change that starts a state_hold; the occurrence is the later "held" op
+                        hass.states.async_set("pyscript.x", str(op["v"]))
+                        continue
+                    elif k == "held":
+                        expect.append(("state", None, str(op["v"])))
                     elif k == "time":
                         expect.append(("time", None, str(dt_of_us(op["w"]))))
                     occ_idx += 1
